@@ -246,6 +246,14 @@ class TransferMal(Stream):
             else:
                 j = rng.below(len(s)); m = s[:j] + bytes([s[j] ^ (1 << rng.below(8))]) + s[j + 1:]; kind = "bitflip"
             cs.append({"transfer": m.hex(), "kind": kind})
+        # every value of the length octet of an IE that precedes the tunnel IE (its length is what the walk advances by),
+        # with the claimed number of octets present and with the input ending early
+        tun = bytes([0x00, 0x8b, 0x00, 0x0a, 0x01, 0xf0]) + rng.bytes(8)
+        for L in range(256):
+            for ident in ((0x00, 0x7e), (0x00, 0x82)):
+                head = bytes([0x00, 0x00, 0x02, ident[0], ident[1], 0x40, L])
+                cs.append({"transfer": (head + rng.bytes(L) + tun).hex(), "kind": "length-octet"})
+                cs.append({"transfer": (head + rng.bytes(rng.below(6))).hex(), "kind": "length-octet-short"})
         return cs
 
     def go_case(self, c):
